@@ -8,17 +8,39 @@ thread_local! {
     static TOTAL: Cell<usize> = const { Cell::new(0) };
     static MAX_ONE: Cell<usize> = const { Cell::new(0) };
 }
+/// A request above this is never attempted: a decoder that asks for it has taken a length from the input.
+pub const REFUSE_ABOVE: usize = 1 << 31;
+thread_local! {
+    static CASE: Cell<([u8; 768], usize)> = const { Cell::new(([0; 768], 0)) };
+}
+/// Remember what is being executed, so that a refused allocation (which aborts the process: allocation failure
+/// cannot be unwound) leaves a witness behind.
+pub fn set_case(fam: &str, name: &str, buf: &[u8]) {
+    let mut a = [0u8; 768];
+    let mut n = 0;
+    for b in fam.bytes().chain(std::iter::once(b'|')).chain(name.bytes()).chain(std::iter::once(b'|')) { if n < 760 { a[n] = b; n += 1 } }
+    for b in buf.iter().take(340) { let h = b"0123456789abcdef"; if n < 766 { a[n] = h[(*b >> 4) as usize]; a[n + 1] = h[(*b & 15) as usize]; n += 2 } }
+    let _ = CASE.try_with(|c| c.set((a, n)));
+}
+fn witness(size: usize) {
+    if let Ok(path) = std::env::var("VH_WITNESS") {
+        let (a, n) = CASE.try_with(|c| c.get()).unwrap_or(([0; 768], 0));
+        let case = String::from_utf8_lossy(&a[..n]).to_string();
+        let _ = std::fs::write(path, format!("{{\"refused_allocation_bytes\": {}, \"case\": \"{}\"}}\n", size, case));
+    }
+}
 fn note(n: usize) {
     let _ = TOTAL.try_with(|t| t.set(t.get().wrapping_add(n)));
     let _ = MAX_ONE.try_with(|m| if n > m.get() { m.set(n) });
 }
 unsafe impl GlobalAlloc for Counting {
-    unsafe fn alloc(&self, l: Layout) -> *mut u8 { note(l.size()); System.alloc(l) }
+    unsafe fn alloc(&self, l: Layout) -> *mut u8 { note(l.size()); if l.size() > REFUSE_ABOVE { witness(l.size()); return std::ptr::null_mut() } System.alloc(l) }
     unsafe fn dealloc(&self, p: *mut u8, l: Layout) { System.dealloc(p, l) }
-    unsafe fn alloc_zeroed(&self, l: Layout) -> *mut u8 { note(l.size()); System.alloc_zeroed(l) }
+    unsafe fn alloc_zeroed(&self, l: Layout) -> *mut u8 { note(l.size()); if l.size() > REFUSE_ABOVE { witness(l.size()); return std::ptr::null_mut() } System.alloc_zeroed(l) }
     unsafe fn realloc(&self, p: *mut u8, l: Layout, new: usize) -> *mut u8 {
         if new > l.size() { let _ = TOTAL.try_with(|t| t.set(t.get().wrapping_add(new - l.size()))); }
         let _ = MAX_ONE.try_with(|m| if new > m.get() { m.set(new) });
+        if new > REFUSE_ABOVE { witness(new); return std::ptr::null_mut() }
         System.realloc(p, l, new)
     }
 }
